@@ -348,7 +348,9 @@ def run_single_preemptions(rec, shard, tier):
         # offset rotates with the pair so that over the catalogue every residue class is visited
         step = max(1, K // 500) if tier == "thorough" else max(1, K // 120)
         if a == b and a in ("symbolic", "reentrant"):
-            step = 1  # narrow windows (a few lines between filling in a scope's values and using them): every yield point
+            # narrow windows (a few lines between filling in a scope's values and using them): every yield point at line
+            # granularity; at opcode granularity (thorough tier) a dense but bounded sample
+            step = 1 if not opcodes else max(1, K // 3000)
             rec.count("single_preemption.dense_pairs")
         for k in range(1 + (idx % step), K + 1, step):
             seen = {}
